@@ -34,6 +34,7 @@ func constStr(v ssa.Value) string {
 
 // atomicOpsOn collects every sync/atomic call whose address operand is field `field` of `named`.
 func (w *World) atomicOpsOn(named *types.Named, field string) []atomicOp {
+	defer w.noCtx()()
 	var out []atomicOp
 	for _, fn := range w.Funcs {
 		g := w.FG(fn)
@@ -163,6 +164,7 @@ func (w *World) evInvokeBatch() Ev {
 }
 
 func (w *World) findInboxRolesUncached() *inboxRoles {
+	defer w.noCtx()()
 	ir := &inboxRoles{inbox: w.Named("actor", "Inbox")}
 	bad := func(f string, a ...any) { ir.problems = append(ir.problems, fmt.Sprintf(f, a...)) }
 	if ir.inbox == nil {
